@@ -658,7 +658,20 @@ def _check_find(ctx: Ctx, i, op, out, cfg):
         over = mx - sim["max_eft"]
         under = sim["min_eft"] - mn
         exc_t = max(over, under)
-        if prop == "C01" and not out["escape"] and any(x in ctx.shape for x in ("reconf", "other", "nominal", "rebuild", "poke")):
+        jump = False
+        if prop in ("C01", "C05") and not out["escape"] and exc_t > TOL and h < sim["max_height"]:
+            # is this the infeasible side of a jump of the (discontinuous) excess?  One millimetre higher it is feasible.
+            h_up = min(sim["max_height"], h + max(1.0e-3, 20.0 * (1.0e-6 + 1.0e-6 * h)))
+            g.bhe.b.H = h_up
+            with Quiet():
+                mx2, mn2 = g.simulate(method=TimestepType.HYBRID)
+            e_up = max(mx2 - sim["max_eft"], sim["min_eft"] - mn2)
+            g.bhe.b.H = h
+            with Quiet():
+                g.simulate(method=TimestepType.HYBRID)
+            jump = e_up <= TOL
+        ctx.state[op["mgr"]]["c01_jump"] = jump
+        if prop == "C01" and not out["escape"] and not jump and any(x in ctx.shape for x in ("reconf", "other", "nominal", "rebuild", "poke")):
             # ... and by an evaluator built from the *requested* configuration (the returned object could be consistent
             # with itself and still belong to an earlier configuration of this manager)
             rg = ctx.ref.fresh_ghe(cfg, g.gFunction.bore_locations, g.fieldSpecifier, h0=g._verif_h0)
@@ -674,10 +687,14 @@ def _check_find(ctx: Ctx, i, op, out, cfg):
         if prop == "C01" and not out["escape"]:
             ctx.bump("c01_designs_checked")
             if exc_t > TOL:
+                if jump:
+                    ctx.bump("probe:infeasible_side_of_a_jump_returned")
                 ctx.violation(Violation("C01", "returned_design_infeasible",
                                         f"{nbh} bh @ {h:.4f} m: max EFT {mx:.4f} (limit {sim['max_eft']}), min EFT {mn:.4f} "
-                                        f"(limit {sim['min_eft']}): excess {exc_t:.5f} K > 1e-3 ({method}, {oc})",
-                                        site=f"{method}:{oc}"), i, {"after": _history_kind(ctx)})
+                                        f"(limit {sim['min_eft']}): excess {exc_t:.5f} K > 1e-3 ({method}, {oc})"
+                                        + (" - the infeasible side of a jump of the excess: one millimetre higher it is feasible" if jump else ""),
+                                        site="infeasible_side_of_jump" if jump else f"{method}:{oc}"), i,
+                              {"after": _history_kind(ctx)} if not jump else {})
         if prop == "C05" and not out["escape"]:
             ctx.bump("c05_designs_checked")
             over, e2 = _oversized(g, sim, h, exc_t)
@@ -689,7 +706,8 @@ def _check_find(ctx: Ctx, i, op, out, cfg):
                               i, {"mode": "real"})
             if h < sim["max_height"] and exc_t > TOL:
                 ctx.violation(Violation("C05", "height_not_root_infeasible", f"excess({nbh}@{h:.4f})={exc_t:.5f} > 1e-3 with "
-                                                                              f"H<max ({method})", site=method), i, {"mode": "real"})
+                                                                              f"H<max ({method})" + (" - infeasible side of a jump" if jump else ""),
+                                        site="infeasible_side_of_jump" if jump else method), i, {"mode": "real"} if not jump else {})
             total = nbh * h
             for row in mgr._search.searchTracker:
                 pass  # the tracker does not carry borehole counts; clause (i) is decided in E3
@@ -1236,7 +1254,7 @@ def op_pristine_resim(ctx: Ctx, i, op):
     oc = outcome_class(cfg, out)
     method = cfg["geometry"]["method"]
     nbh = len(job["coords"])
-    if ctx.prop == "C01" and not out.get("escape") and e > TOL:
+    if ctx.prop == "C01" and not out.get("escape") and e > TOL and not st.get("c01_jump"):
         ctx.violation(Violation("C01", "returned_design_infeasible",
                                 f"{nbh} bh @ {h:.4f} m simulated by a brand-new evaluator in a new process: max EFT {mx:.4f} (limit "
                                 f"{sim['max_eft']}), min EFT {mn:.4f} (limit {sim['min_eft']}): excess {e:.5f} K > 1e-3 ({method}, {oc}) "
